@@ -8,6 +8,7 @@ import (
 
 	"github.com/corestario/kyber/share"
 
+	"github.com/lidofinance/dc4bc/client/types"
 	fsmtypes "github.com/lidofinance/dc4bc/fsm/types"
 	"github.com/lidofinance/dc4bc/fsm/types/requests"
 	"github.com/lidofinance/dc4bc/pkg/utils"
@@ -44,6 +45,7 @@ func checkC03(c *Ctx) {
 		for pi := 0; pi < perWorld; pi++ {
 			runC03Proposal(c, ce, poly, r, wi, pi)
 		}
+		c03Reproposed(c, ce, poly, r, wi)
 	})
 }
 
@@ -281,3 +283,79 @@ func runC03Proposal(c *Ctx, ce *Ceremony, poly *share.PubPoly, r *sched.Rng, wi,
 }
 
 var _ = storage.Message{}
+
+
+// c03Reproposed: at the end of a world, a signed batch is proposed AGAIN by its proposer under the same
+// batch id and the same message identifiers but with other payloads (identifiers are the proposer's
+// choice), and nobody answers. Whatever the nodes now store, export and serve for these identifiers, a
+// signature value must never stand next to bytes it was not made for.
+func c03Reproposed(c *Ctx, ce *Ceremony, poly *share.PubPoly, r *sched.Rng, wi int) {
+	w := ce.W
+	var first *storage.Message
+	all := w.Board.All()
+	for i := len(all) - 1; i >= 0 && first == nil; i-- {
+		if all[i].Event == EvSigningStart && all[i].DkgRoundID == ce.Round {
+			var req requests.SigningBatchProposalStartRequest
+			if json.Unmarshal(all[i].Data, &req) != nil {
+				continue
+			}
+			explicit := len(req.SigningTasks) > 0
+			for _, tk := range req.SigningTasks {
+				if len(tk.Payload) == 0 {
+					explicit = false
+				}
+			}
+			if explicit && len(SigStore(w.Nodes[0], ce.Round)[req.BatchID]) > 0 {
+				first = &all[i]
+			}
+		}
+	}
+	if first == nil || !ce.AllIn(StIdle) {
+		return
+	}
+	var req requests.SigningBatchProposalStartRequest
+	_ = json.Unmarshal(first.Data, &req)
+	for i := range req.SigningTasks {
+		req.SigningTasks[i].Payload = append([]byte("re-proposed with other content: "), r.Bytes(12)...)
+	}
+	req.CreatedAt = now()
+	var proposer *world.Node
+	for _, nd := range w.Nodes {
+		if nd.Name == first.SenderAddr {
+			proposer = nd
+		}
+	}
+	if proposer == nil {
+		return
+	}
+	_ = w.Board.Send(world.SignMsg(proposer, ce.Round, EvSigningStart, mkReq(req), ""))
+	w.OpFilter = func(nd *world.Node, op *types.Operation) bool { return string(op.Type) != OpSigning }
+	w.Run(world.EagerPolicy, 2000)
+	w.OpFilter = nil
+	key := oracle.PointBytes(poly.Commit())
+	wit := map[string]interface{}{"world": wi, "n": ce.N, "batch": req.BatchID, "scenario": "signed batch proposed again under the same identifiers with other payloads, unanswered"}
+	c.Eval(1)
+	c.Distinct(fmt.Sprintf("re-proposed-same-ids|n%d", ce.N))
+	c.Add("batches_re-proposed_under_the_same_identifiers", 1)
+	judge := func(where string, payload, sig []byte, id string) {
+		if len(sig) == 0 {
+			return
+		}
+		if ok, _ := oracle.VerifyG2(key, payload, sig); !ok {
+			c.Violate("C03/signature-next-to-bytes-it-was-not-made-for:"+where, fmt.Sprintf("message %q of batch %s: the %s shows a signature together with a payload it does not verify for", id, trunc(req.BatchID, 8), where), wit)
+		}
+	}
+	for _, nd := range w.Nodes {
+		batch := SigStore(nd, ce.Round)[req.BatchID]
+		for id, entries := range batch {
+			for _, e := range entries {
+				judge("store", e.SrcPayload, e.Signature, id)
+			}
+		}
+		if ex, err := utils.PrepareSignaturesToDump(batch); err == nil {
+			for id, ent := range *ex {
+				judge("export", ent.Payload, ent.Signature, id)
+			}
+		}
+	}
+}
